@@ -22,6 +22,8 @@ pub struct Case {
     pub offered: u32,
     pub with_auth: bool,
     pub check_certificate: bool,
+    /// connector options that must not influence transport security: bit0 restricted admin, bit1 blank creds, bit2 auto logon, bit3 NT hash
+    pub options: u8,
     pub identity: usize,
     /// response | failure | request-echo | absent | unknown-type
     pub reply_kind: &'static str,
@@ -33,7 +35,7 @@ pub struct Case {
 
 impl Case {
     fn to_json(&self) -> Value {
-        json!({"api": self.api, "offered": self.offered, "with_auth": self.with_auth, "check_certificate": self.check_certificate, "identity": self.identity,
+        json!({"api": self.api, "offered": self.offered, "with_auth": self.with_auth, "check_certificate": self.check_certificate, "options": self.options, "identity": self.identity,
                "reply_kind": self.reply_kind, "neg_type": self.neg_type, "flags": self.flags, "value": self.value, "class": self.class})
     }
     fn from_json(v: &Value) -> Case {
@@ -51,6 +53,7 @@ impl Case {
             offered: v["offered"].as_u64().unwrap_or(3) as u32,
             with_auth: v["with_auth"].as_bool().unwrap_or(true),
             check_certificate: v["check_certificate"].as_bool().unwrap_or(false),
+            options: v["options"].as_u64().unwrap_or(0) as u8,
             identity: v["identity"].as_u64().unwrap_or(2) as usize,
             reply_kind: kind(v["reply_kind"].as_str().unwrap_or("")),
             neg_type: v["neg_type"].as_u64().unwrap_or(2) as u8,
@@ -95,11 +98,18 @@ pub fn run_case(c: &Case) -> Result<Seen, mon::PanicInfo> {
             let mut cfg = ConnCfg::default();
             cfg.nla = case.offered & 2 != 0;
             cfg.check_certificate = case.check_certificate;
+            cfg.restricted_admin = case.options & 1 != 0;
+            cfg.blank_creds = case.options & 2 != 0;
+            cfg.auto_logon = case.options & 4 != 0;
+            if case.options & 8 != 0 {
+                cfg.hash = Some(crate::refs::ntlm::nt_hash(&cfg.password).to_vec());
+            }
             client::connect_real(&cfg, d.clone()).map(|_| ()).map_err(|e| client::err_kind(&e))
         } else {
             let mut auth = Ntlm::new("DOM".into(), "user".into(), "password".into());
             let t = tpkt::Client::new(Link::new(Stream::Raw(d.clone())));
-            let r = if case.with_auth { x224::Client::connect(t, case.offered, case.check_certificate, Some(&mut auth), false, false) } else { x224::Client::connect(t, case.offered, case.check_certificate, None, false, false) };
+            let (ra, bc) = (case.options & 1 != 0, case.options & 2 != 0);
+            let r = if case.with_auth { x224::Client::connect(t, case.offered, case.check_certificate, Some(&mut auth), ra, bc) } else { x224::Client::connect(t, case.offered, case.check_certificate, None, ra, bc) };
             match r {
                 Err(e) => Err(client::err_kind(&e)),
                 Ok(x) => {
@@ -196,7 +206,7 @@ pub fn make_case(class: u64, idx: u64, seed: u64) -> Case {
             let hi = HIGHS[(idx / 256 % 4) as usize];
             let nla = idx / 1024 % 2 == 1;
             let chk = idx / 2048 % 2 == 1;
-            Case { api: "connector", offered: if nla { 3 } else { 1 }, with_auth: true, check_certificate: chk, identity: if chk && idx % 3 == 0 { 4 } else { 2 }, reply_kind: "response", neg_type: 2, flags: 0, value: hi << 8 | lo, class: "connector-selected-sweep" }
+            Case { api: "connector", offered: if nla { 3 } else { 1 }, with_auth: true, check_certificate: chk, options: (idx / 4096 % 16) as u8 ^ (idx % 16) as u8, identity: if chk && idx % 3 == 0 { 4 } else { 2 }, reply_kind: "response", neg_type: 2, flags: 0, value: hi << 8 | lo, class: "connector-selected-sweep" }
         }
         1 => {
             // x224 layer: offered masks x auth object x selected sweep
@@ -204,14 +214,14 @@ pub fn make_case(class: u64, idx: u64, seed: u64) -> Case {
             let hi = HIGHS[(idx / 256 % 4) as usize];
             let m = X224_MASKS[(idx / 1024 % 8) as usize];
             let auth = idx / 8192 % 2 == 0;
-            Case { api: "x224", offered: m, with_auth: auth, check_certificate: false, identity: 2, reply_kind: "response", neg_type: 2, flags: 0, value: hi << 8 | lo, class: "x224-selected-sweep" }
+            Case { api: "x224", offered: m, with_auth: auth, check_certificate: false, options: (idx % 4) as u8, identity: 2, reply_kind: "response", neg_type: 2, flags: 0, value: hi << 8 | lo, class: "x224-selected-sweep" }
         }
         2 => {
             // flag byte: all 256 values for the accepted selections
             let flags = (idx % 256) as u8;
             let sel = if idx / 256 % 2 == 0 { 1 } else { 2 };
             let nla = sel == 2 || idx / 512 % 2 == 1;
-            Case { api: "connector", offered: if nla { 3 } else { 1 }, with_auth: true, check_certificate: idx / 1024 % 2 == 1, identity: 2, reply_kind: "response", neg_type: 2, flags, value: sel, class: "flag-byte-sweep" }
+            Case { api: "connector", offered: if nla { 3 } else { 1 }, with_auth: true, check_certificate: idx / 1024 % 2 == 1, options: (idx / 7 % 16) as u8, identity: 2, reply_kind: "response", neg_type: 2, flags, value: sel, class: "flag-byte-sweep" }
         }
         3 => {
             // reply kinds: failure codes, echoed request, absent, unknown types
@@ -232,12 +242,12 @@ pub fn make_case(class: u64, idx: u64, seed: u64) -> Case {
                 _ => r.u32(),
             };
             let api: &'static str = if idx % 2 == 0 { "connector" } else { "x224" };
-            Case { api, offered: *r.pick(&[1u32, 3, 3, 2, 0]), with_auth: true, check_certificate: r.chance(1, 4), identity: 2, reply_kind: kind, neg_type: t, flags: r.u8(), value, class: "reply-kinds" }
+            Case { api, offered: *r.pick(&[1u32, 3, 3, 2, 0]), with_auth: true, check_certificate: r.chance(1, 4), options: r.below(16) as u8, identity: 2, reply_kind: kind, neg_type: t, flags: r.u8(), value, class: "reply-kinds" }
         }
         _ => {
             // certificate checking with every identity, allowed selections
             let sel = 1 + (idx % 2) as u32;
-            Case { api: "connector", offered: 3, with_auth: true, check_certificate: true, identity: (idx / 2 % 5) as usize, reply_kind: "response", neg_type: 2, flags: 0, value: sel, class: "certificate-checking" }
+            Case { api: "connector", offered: 3, with_auth: true, check_certificate: true, options: (idx / 10 % 16) as u8, identity: (idx / 2 % 5) as usize, reply_kind: "response", neg_type: 2, flags: 0, value: sel, class: "certificate-checking" }
         }
     }
 }
@@ -245,7 +255,7 @@ pub fn make_case(class: u64, idx: u64, seed: u64) -> Case {
 /// connections in one process, in a fixed order: unchecked, then checked against an untrusted certificate
 fn sequence_case(rep: &mut Report) {
     for nla in [false, true].iter() {
-        let a = Case { api: "connector", offered: if *nla { 3 } else { 1 }, with_auth: true, check_certificate: false, identity: 2, reply_kind: "response", neg_type: 2, flags: 0, value: if *nla { 2 } else { 1 }, class: "sequence:unchecked-first" };
+        let a = Case { api: "connector", offered: if *nla { 3 } else { 1 }, with_auth: true, check_certificate: false, options: 0, identity: 2, reply_kind: "response", neg_type: 2, flags: 0, value: if *nla { 2 } else { 1 }, class: "sequence:unchecked-first" };
         check_case(&a, rep);
         let mut b = a.clone();
         b.check_certificate = true;
@@ -263,7 +273,7 @@ pub fn run(cfg: &Cfg) -> Report {
         sequence_case(&mut rep);
         total.merge(rep);
     }
-    let plan: Vec<(u64, u64)> = vec![(0, 4096), (1, 16384), (2, 2048), (3, cfg.n(2_000, 40_000)), (4, cfg.n(100, 2000))];
+    let plan: Vec<(u64, u64)> = vec![(0, 4096), (1, 16384), (2, 2048), (3, cfg.n(2_000, 40_000)), (4, cfg.n(1600, 16000))];
     for (class, n) in plan {
         if !cfg.wants(class) {
             continue;
